@@ -20,3 +20,32 @@ pub enum WordEndOnly {
     #[regex(r"[a-z]+", priority = 1)] Ident,
     #[token(" ")] Sp,
 }
+
+// states that carry BOTH a late accept (a look-ahead match confirmed by the byte just read) and an
+// early accept (another pattern completes on that very byte): the generated code must prefer the
+// early, longer match.
+#[derive(Logos, Debug, PartialEq, Clone)]
+pub enum WordCall {
+    #[regex(r"[a-z]+(?-u:\b)")] Word,
+    #[regex(r"[a-z]+\(")] Call,
+    #[token(")")] Close,
+    #[token(" ")] Sp,
+}
+
+#[derive(Logos, Debug, PartialEq, Clone)]
+pub enum EolOrCrlf {
+    #[regex(r"[a-z]+(?m:$)")] LineEndWord,
+    #[regex(r"[a-z]+\n")] WordNl,
+    #[regex(r"[a-z]+", priority = 1)] Word,
+    #[token("\n")] Nl,
+    #[token(" ")] Sp,
+}
+
+#[derive(Logos, Debug, PartialEq, Clone)]
+pub enum NotWordThenDot {
+    #[regex(r"[0-9]+(?-u:\b)")] Int,
+    #[regex(r"[0-9]+\.[0-9]+")] Float,
+    #[regex(r"[0-9]+\.\.")] RangeStart,
+    #[token(".")] Dot,
+    #[regex(r"[a-z]+")] Ident,
+}
